@@ -8,6 +8,7 @@ pub mod irq;
 pub mod memops;
 pub mod nocrash;
 pub mod periph;
+pub mod progwalk;
 pub mod regops;
 pub mod runloop;
 pub mod syscall;
@@ -162,6 +163,25 @@ pub fn replay(line: &str) -> (bool, String) {
             let seed: u64 = line.split_whitespace().find_map(|t| t.strip_prefix("seed=")).and_then(|v| v.parse().ok()).unwrap_or(0);
             let mut rep = crate::util::Report::new(check);
             let bad = memops::chain_session(&mut rep, seed, true);
+            let mut out = String::new();
+            for f in rep.findings.values() {
+                out.push_str(&format!("  FINDING {}: {}\n", f.sig, f.detail));
+            }
+            (bad, out)
+        }
+        "progwalk" => {
+            let seed: u64 = line.split_whitespace().find_map(|t| t.strip_prefix("seed=")).and_then(|v| v.parse().ok()).unwrap_or(0);
+            let mut rep = crate::util::Report::new(check);
+            let (judge, groups): (common::Judge, Vec<Group>) = match check {
+                "C01" => (common::Judge::FULL.only(common::is_mov), vec![Group::Mov]),
+                "C02" => (common::Judge::FULL.only(common::is_arith), vec![Group::Arith]),
+                "C03" => (common::Judge::FULL.only(common::is_logic), vec![Group::Logic]),
+                "C04" => (common::Judge::FULL.only(common::is_bit), vec![Group::Bit]),
+                "C08" => (memops::c08_judge(), vec![Group::Mov, Group::Bit, Group::Stc]),
+                _ => (common::Judge::COST, vec![Group::Mov, Group::Arith, Group::Logic, Group::Bit, Group::Stc]),
+            };
+            println!("check {} program walk seed={}", check, seed);
+            let bad = progwalk::progwalk_session(&mut rep, check, &judge, &groups, seed, true);
             let mut out = String::new();
             for f in rep.findings.values() {
                 out.push_str(&format!("  FINDING {}: {}\n", f.sig, f.detail));
